@@ -459,6 +459,12 @@ func scenarios(tier string) []scenario {
 			}
 		}
 	}
+	// early data whose size sits on a buffer boundary (the client then waits for the target's answer)
+	for _, n := range []int{1023, 1024, 1025, 2048, 3072, 4095, 4096, 8192} {
+		for _, head := range []int{1, 3} {
+			out = append(out, scenario{Head: head, CChunks: []int{n, 2}, TChunks: []int{3, 1}, Initiator: "client", Mode: "half", PingPong: true})
+		}
+	}
 	// short reads on the proxy's sockets
 	for _, head := range []int{1, 2} {
 		for _, in := range []string{"client", "target"} {
